@@ -104,6 +104,48 @@ def gen_trajectory(rng):
     return {'fuel_mass': fm, 'altitude': alt, 'tas': tas, 'fuel_flow': ff, 'n_climb': ncl, 'n_descent': nde}
 
 
+def shape_trajectories():
+    """Deliberate trajectory shapes (name, trajectory): empty accounting window (n_climb + n_descent == n, a hop
+    without cruise points), window of exactly one point, n_climb = 0, n_descent = 0, both 0, 1-3 point
+    trajectories, zero-burn segments / an all-zero-burn trajectory.  Cruise at 10-11 km so that the MEEM
+    low-altitude degeneracy (FC01a) does not mask what the shape is meant to exercise."""
+    def mk(n, ncl, nde, flat=False, plateau=()):
+        fm, alt, tas, ff = [], [], [], []
+        up = max(1, n // 2)
+        for i in range(n):
+            burn = 0.0 if (flat or i in plateau or i == 0) else 40.0 / n + 1.5 * (i % 3)
+            fm.append((fm[-1] if fm else 1500.0) - burn)
+            frac = min(i / up, (n - 1 - i) / max(n - 1 - up, 1)) if n > 1 else 0.0
+            alt.append(10500.0 * max(0.0, min(1.0, frac)) if n > 2 else (0.0 if i == 0 else 9500.0))
+            tas.append(120.0 + 110.0 * max(0.0, min(1.0, frac)))
+            ff.append(0.9 if i < up else 0.25)
+        return {'fuel_mass': fm, 'altitude': alt, 'tas': tas, 'fuel_flow': ff, 'n_climb': ncl, 'n_descent': nde}
+    return [('empty-window-6', mk(6, 3, 3)), ('one-point-window-6', mk(6, 2, 3)), ('no-climb-6', mk(6, 0, 2)),
+            ('no-descent-6', mk(6, 2, 0)), ('no-climb-no-descent-6', mk(6, 0, 0)), ('all-climb-6', mk(6, 6, 0)),
+            ('all-descent-6', mk(6, 0, 6)), ('three-points-one-in-window', mk(3, 1, 1)),
+            ('three-points-empty-window', mk(3, 2, 1)), ('two-points-empty-window', mk(2, 1, 1)),
+            ('two-points-full-window', mk(2, 0, 0)), ('single-point', mk(1, 0, 0)),
+            ('single-point-empty-window', mk(1, 0, 1)), ('plateau-in-window-8', mk(8, 2, 2, plateau=(3, 4))),
+            ('all-zero-burn-5', mk(5, 1, 1, flat=True)), ('empty-window-40', mk(40, 20, 20)),
+            ('one-point-window-40', mk(40, 19, 20))]
+
+
+def shape_cases(rng):
+    """every shape x both accounting modes x every PMnvol and PMvol method (the rest of the case random)"""
+    out = []
+    for _name, traj in shape_trajectories():
+        for mode in OPTIONS['climb_descent_mode']:
+            for pn in OPTIONS['pmnvol_method']:
+                for pv in OPTIONS['pmvol_method']:
+                    if mode == 'trajectory' and rng.random() < 0.6:
+                        continue                                   # the window only matters under lto accounting
+                    c = gen_case(rng)
+                    c['traj'] = traj
+                    c['cfg'] = {**c['cfg'], 'climb_descent_mode': mode, 'pmnvol_method': pn, 'pmvol_method': pv}
+                    out.append(c)
+    return out
+
+
 def gen_lto(rng):
     ff0 = rng.uniform(0.05, 0.3)
     ff = [ff0, ff0 * rng.uniform(2.2, 3.5), ff0 * rng.uniform(6.5, 9.5), ff0 * rng.uniform(10.0, 12.5)]
@@ -911,7 +953,7 @@ def run(chk: Check):
                 'zero-burn plateaus, stratospheric cruise, climb/descent windows in {0,1,k,n}) x (random positive '
                 'LTO/EDB row, 2-4 engines) x (every shipped APU, unknown APU, no APU, random APU) x (4 aircraft classes) '
                 'x (Jet-A, SAF, random fuels); non-trivial = has a zero-burn segment, or a proper window under lto '
-                'accounting, or a non-default configuration; plus HISTORIES: 2-4 compute_emissions calls in one process for the '
+                'accounting, or a non-default configuration; plus SHAPES: 17 deliberate trajectory shapes (empty / one-point accounting window, n_climb = 0, n_descent = 0, 1-3 points, zero-burn) x both modes x every PMnvol and PMvol method; plus HISTORIES: 2-4 compute_emissions calls in one process for the '
                 'same engine identity that differ in exactly one input (fuel / trajectory / LTO row / APU / class / one '
                 'option), orders incl. A,B,A — every call is checked by the same oracle and model')
     chk.trusted += ['translator/c01_extract.py + translator/py2coq.py (numerically cross-checked each run)',
@@ -936,6 +978,9 @@ def run(chk: Check):
         cases.append(gen_case(chk.rng, cfg))
         cases.append(gen_case(chk.rng, cfg))
     cases.append(gen_case(chk.rng, dict(DEFAULT_CFG)))
+    shapes = shape_cases(chk.rng)
+    chk.count('shape-cases', len(shapes))
+    cases += shapes
     check_cases(chk, cases, state)
     # the history stream: statefulness across calls (memoisation keyed on too little, mutated shared data)
     hists = load_corpus_histories(chk) + [gen_history(chk.rng) for _ in range(chk.n(70, 700))]
